@@ -205,6 +205,9 @@ NAMES = {
     'reldirs': ('build/app.js', 'build/maps/app.js.map', 'src/app.src.js'),
     'relsub': ('build/app.js', 'build/app.js.map', 'build/app.src.js'),
     'dots': ('/tmp/build/./out/../out/app.js', '/tmp/build/maps/x/../app.js.map', '/tmp/src/../src/lib/app.src.js'),
+    # directory names that are string prefixes of sibling names (path components, not characters, decide what is relative)
+    'sibling': ('/srv/project/app/foo.min.js', '/srv/project/app.maps/foo.min.js.map', '/srv/project/app-src/foo.js'),
+    'sibling2': ('/p/build/o.js', '/p/build.js.map', '/p/build-src/o.src.js'),
 }
 
 
